@@ -1,4 +1,5 @@
 """C01 AEAD / secretbox / box / seal equal the published constructions, round-trip, and all call forms agree."""
+import hashlib
 import os
 from vf import common, configs
 
@@ -6,7 +7,9 @@ RULE = ("constructions {chacha20poly1305, -ietf, xchacha20poly1305-ietf, aes256g
         "xsalsa/xchacha, seal xsalsa/xchacha} x call forms {combined, detached, NULL length pointers, afternm/beforenm, NaCl zero-padded} "
         "x EVERY mlen 0..640 (thorough 0..2304) + {1023..1025, 2047..2049, 4095..4097 (+65535..65537, 2^20+-1 thorough)} x adlen "
         "{0,1,15,16,17,31,32,33,63,64,65,127,128,129} (all 14 on pattern R1, a third on the others) and EVERY adlen 0..288 (thorough 0..480) "
-        "at 16 boundary message lengths x patterns {C,R1,F} (thorough all 6) x backend configuration. Oracle: ciphertext and tag equal "
+        "at 16 boundary message lengths x patterns {C,R1,F} (thorough all 6) x backend configuration; bit-length carry: every AEAD with "
+        "(adlen 2^29+3, mlen 5) combined + detached (thorough also (mlen 2^29+3, adlen 3) detached, decrypted in place), periodic R1 contents. "
+        "Oracle: ciphertext and tag equal "
         "the C reference; decrypt returns message and length; canaries. Box keys from an X25519 table computed by a Python RFC 7748 "
         "ladder; sealed boxes under a scripted RNG. Every tuple run once; all non-trivial (compared with the reference).")
 
@@ -28,6 +31,14 @@ def prepare(tier):
 
 def main(tier):
     ref = os.path.join(common.VERIF, "ref")
+    # reference (tag, ciphertext digest) of the bit-length-carry cases: a function of (seed, construction, shape) only, computed by the first
+    # harness process that needs it and kept under a name bound to the content of the reference and harness sources
+    h = hashlib.sha256()
+    for f in (os.path.join(ref, "ref_stream.c"), os.path.join(ref, "ref_hash.c"), os.path.join(common.VERIF, "harness", "c01.c"),
+              os.path.join(common.VERIF, "harness", "common.h"), os.path.join(common.VERIF, "harness", "sym_table.h")):
+        h.update(open(f, "rb").read())
+    os.makedirs(os.path.join(common.VERIF, "build", "ref"), exist_ok=True)
+    os.environ["VERIF_C01_BIGREF"] = os.path.join(common.VERIF, "build", "ref", "c01_big-" + h.hexdigest()[:16])
     common.simple_check("C01", tier, "exploration", ["c01.c", os.path.join(ref, "ref_hash.c"), os.path.join(ref, "ref_stream.c")],
                         VARIANTS, RULE, ["contents limited to the pattern alphabet", "8 fixed X25519 key pairs for box/seal"],
                         configs=configs.aead,
